@@ -571,7 +571,7 @@ func (vm *VM) run() (Addr, bool) {
 				vm.fp[3] + Addr(off.C),
 			}
 			vm.swapStack(&vm.fp, &fp, StackShift{int8(arg.Op), arg.A, arg.B, arg.C})
-			vm.calls = append(vm.calls, callFrame{cl: *cl, renderer: vm.renderer, fp: fp, pc: 0, status: deferred, numVariadic: c})
+			vm.calls = append(vm.calls, callFrame{cl: cl.snapshot(), renderer: vm.renderer, fp: fp, pc: 0, status: deferred, numVariadic: c})
 			vm.pc += 2
 
 		// Delete
